@@ -23,6 +23,11 @@ EXTRA = {
     # P3 (trigonal, hexagonal axes)
     "trig_P3": (gen._c(3.2, 3.2, 5.0, ga=120), ["Ti", "O", "O", "O"],
                 [[0, 0, 0], [0.3, 0.1, 0.4], [0.9, 0.2, 0.4], [0.8, 0.7, 0.4]], "P"),
+    # body-centred orthorhombic (primitive cell couples all three axes)
+    "bco": (gen._c(3.0, 3.6, 4.4), ["Ga", "Ga"], [[0, 0, 0], [0.5, 0.5, 0.5]], "I"),
+    # primitive orthorhombic / monoclinic cells described in a skewed (unimodular) basis: a' = a + b
+    "ortho_skew": (np.array([[1, 1, 0], [0, 1, 0], [0, 0, 1]]) @ gen._c(3.0, 3.7, 4.6), ["Ga", "As"], [[0, 0, 0], [0.5, 0.5, 0.5]], "P"),
+    "mono_skew": (np.array([[1, 0, 1], [0, 1, 0], [0, 0, 1]]) @ gen._c(3.0, 4.0, 5.0, be=105), ["Se"], [[0, 0, 0]], "P"),
 }
 
 
